@@ -44,9 +44,19 @@ fn play(cfg: &WorldCfg, sets: &[[AssetInfo; 2]], want_desc: bool, key: u64) -> C
     let lp = LPTokenInfo { lp_token_name: "halo-lp".into(), lp_token_symbol: "HLP".into(), lp_token_decimals: None };
     let mut classes: Vec<&'static str> = vec![];
     let mut refused = 0;
-    for s in sets {
+    for (i, s) in sets.iter().enumerate() {
         let (da, db) = (fw.true_decimals(&s[0]), fw.true_decimals(&s[1]));
-        let rec = fw.create_pair(&owner, s.clone(), req.clone(), None, lp.clone());
+        // creation parameters vary from pair to pair (derived from the position): a listing must not
+        // depend on requirements, commission or LP decimals
+        let req_i = CreatePairRequirements {
+            whitelist: match i % 4 { 0 => vec![], 1 => vec![fw.w.actors[0].clone()], 2 => fw.w.actors.clone(), _ => vec![fw.w.actors[1].clone(), fw.w.actors[1].clone()] },
+            first_asset_minimum: Uint128::new((i as u128 % 3) * 1000),
+            second_asset_minimum: Uint128::new((i as u128 % 5) * 7),
+        };
+        let commission_i = [None, Some(0u128), Some(1), Some(3_000_000_000_000_000), Some(500_000_000_000_000_000), Some(999_999_999_999_999_999), Some(1_000_000_000_000_000_000)][i % 7];
+        let lp_i = LPTokenInfo { lp_token_name: "halo-lp".into(), lp_token_symbol: "HLP".into(), lp_token_decimals: [None, Some(0u8), Some(6), Some(18)][i % 4] };
+        let _ = (&req, &lp);
+        let rec = fw.create_pair(&owner, s.clone(), req_i, commission_i, lp_i);
         if rec.outcome.is_ok() {
             let addr = match &rec.outcome {
                 Outcome::Ok { attrs } => attrs.iter().flat_map(|(_, a)| a.iter()).find(|(k, _)| k == "pair_contract_addr").map(|(_, v)| v.clone()).unwrap_or_default(),
